@@ -373,6 +373,10 @@ func tryAllParsers(pp []pars.Parser) pars.Parser {
 	}
 }
 
+// maxGenBankLength bounds the sequence length a LOCUS line may declare, so
+// that the size of the ORIGIN block computed from it cannot overflow.
+const maxGenBankLength int64 = 1 << 40
+
 // GenBankParser attempts to parse a single GenBank record.
 func GenBankParser(state *pars.State, result *pars.Result) error {
 	if err := genbankLocusParser(state, result); err != nil {
@@ -387,6 +391,9 @@ func GenBankParser(state *pars.State, result *pars.Result) error {
 	length := result.Children[2].Value.(int)
 	if length < 0 {
 		return pars.NewError("negative sequence length", state.Position())
+	}
+	if int64(length) > maxGenBankLength {
+		return pars.NewError("sequence length exceeds the supported maximum", state.Position())
 	}
 	molecule, err := gts.AsMolecule(string(result.Children[3].Token))
 	if err != nil {
